@@ -18,23 +18,29 @@ MENU = ["leaf:n", "leaf:re", "leaf:sh", "item:c", "shape:T", "shape:D", "shape:n
 CATS = ["outcome-mismatch", "value-shape", "schedule-disagree", "spurious-error", "probe-mismatch", "hang", "worker-died"]
 CONVS_ALL = ["call", "av", "yielded", "async_call", "async_call_sync"]
 
+# re-entry x contexts x try: the combinations the statement names explicitly, one size further than the full menu
+MENU_RE = ["ins:sync", "wrap:S0", "wrap:A", "wrap:try", "ins:raise", "ins:res"]
 LADDER = {
-    "quick": [(5, 0, ["call", "yielded"]), (4, 0, CONVS_ALL), (3, 1, ["call", "av"]), (2, 2, ["call"])],
-    "thorough": [(6, 0, ["call", "yielded"]), (5, 0, CONVS_ALL), (4, 1, ["call", "av"]), (3, 2, ["call"]), (2, 3, ["call"])],
+    "quick": [(5, 0, ["call", "yielded"]), (4, 0, CONVS_ALL), (3, 1, ["call", "av"]), (2, 2, ["call"]),
+              (3, 2, ["call"], MENU_RE)],
+    "thorough": [(6, 0, ["call", "yielded"]), (5, 0, CONVS_ALL), (4, 1, ["call", "av"]), (3, 2, ["call"]), (2, 3, ["call"]),
+                 (4, 2, ["call"], MENU_RE), (3, 3, ["call"], MENU_RE)],
 }
 
 
 def jobs(tier, seed):
     done = set()
-    for n, k, convs in LADDER[tier]:
+    for ent in LADDER[tier]:
+        n, k, convs = ent[:3]
+        menu = ent[3] if len(ent) > 3 else MENU
         for size in range(1, n + 1):
-            key = (size, k, tuple(convs))
-            if any(size <= n2 and k <= k2 and set(convs) <= set(c2) for (n2, k2, c2) in done):
+            if menu is MENU and any(size <= n2 and k <= k2 and set(convs) <= set(c2) for (n2, k2, c2) in done):
                 continue
             chunk = 400 if k == 0 else (8 if k == 1 else 1)
             for bases in progx.chunked(gen.base_programs(size), chunk):
-                yield {"bases": bases, "menu": MENU, "k": k, "convs": convs, "cats": CATS, "r1": True}
-        done.add((n, k, tuple(convs)))
+                yield {"bases": bases, "menu": menu, "k": k, "convs": convs, "cats": CATS, "r1": True}
+        if menu is MENU:
+            done.add((n, k, tuple(convs)))
     # shape family over succeeding leaves (values keep their shape for every structure of depth 2 / arity <= 3)
     leaves = (gen.K, gen.IA, ("n",)) if tier == "quick" else (gen.K, gen.IA, ("n",), gen.IB)
     m = 48 if tier == "quick" else 128
@@ -55,4 +61,5 @@ def replay(case, env):
 
 
 def finish(acc, tier):
-    return {"bounds": {"ladder (size<=n, deviations<=k, conventions)": LADDER[tier], "menu": MENU}}
+    return {"bounds": {"ladder (size<=n, deviations<=k, conventions[, sub-menu])": LADDER[tier], "menu": MENU,
+                       "shape family": "every tuple/list/dict of arity 0..3 whose elements are leaves or containers of arity 0..2 over succeeding leaves"}}
